@@ -57,3 +57,33 @@ package hash
 
 // WriteTo of these pointer types tolerates a nil receiver (checked by their own contracts).
 //@ axiom nilok_type(typeid(*pedersen.Parameters)) && nilok_type(typeid(*paillier.PublicKey)) && nilok_type(typeid(*paillier.Ciphertext)) && nilok_type(typeid(*big.Int))
+
+// ---------------------------------------------------------------- commitments (C19, C03)
+//@ spec fn decommit_ok(Int, Slice, Slice, Slice) Bool
+//@ spec fn h_forid(Int, Int) Int
+
+//@ func (Commitment).Validate
+//@   nopanic[C05]
+//@   modifies nothing
+//@   allocates
+//@   ensures[C19] result == nil ==> len(c) == 64
+
+//@ func (Decommitment).Validate
+//@   nopanic[C05]
+//@   modifies nothing
+//@   allocates
+//@   ensures[C19] result == nil ==> len(d) == 32
+
+//@ func (*Hash).Commit
+//@   nopanic[C05]
+//@   requires hash != nil && hash.h != nil && each(data, x, hashable(x))
+//@   modifies nothing
+//@   allocates
+//@   ensures result2 == nil ==> (result0 != nil && result1 != nil && len(result0) == 64 && len(result1) == 32)
+
+//@ func (*Hash).Decommit
+//@   nopanic[C05]
+//@   requires hash != nil && hash.h != nil && each(data, x, hashable(x))
+//@   modifies nothing
+//@   allocates
+//@   ensures[C19] result ==> (len(c) == 64 && len(d) == 32)
